@@ -714,6 +714,63 @@ func units(tier string) []runner.Unit {
 		}
 		u.Sample("two base configs (minimal, fully populated) x every patch setting one or two of " + fmt.Sprint(names))
 	}})
+	us = append(us, runner.Unit{Name: "link-traffic-patterns", Cost: 3, Run: func(u *runner.U) {
+		c := mk(u)
+		check := func(tp *pb.TrafficPattern) bool {
+			u.Eval(1)
+			p := baseProfile()
+			p.TrafficPattern = tp
+			urls, err := appctl.ClientProfileToMultiURLs(p)
+			if err != nil || len(urls) != 1 {
+				return c.fail("simple-url-export", fmt.Sprintf("export failed: %v", err), show(p))
+			}
+			q, err := appctl.URLToClientProfile(urls[0])
+			if err != nil || !equiv(q.TrafficPattern, tp) {
+				return c.fail("simple-url-roundtrip", fmt.Sprintf("mierus:// export then import loses the traffic pattern (err=%v)", err), "link: "+urls[0]+"\npattern: "+show(tp))
+			}
+			cfg := baseClient()
+			cfg.Profiles[0].TrafficPattern = tp
+			l, err := appctl.ClientConfigToURL(cfg)
+			if err == nil {
+				var back *pb.ClientConfig
+				back, err = appctl.ParseURLClientConfig(l)
+				if err == nil && !proto.Equal(back, cfg) {
+					err = fmt.Errorf("differs")
+				}
+			}
+			if err != nil {
+				return c.fail("url-roundtrip", fmt.Sprintf("mieru:// export then import: %v", err), show(tp))
+			}
+			return true
+		}
+		n := int32(20000)
+		if tier == "thorough" {
+			n = 200000
+		}
+		for seed := int32(0); seed < n; seed++ {
+			if !check(&pb.TrafficPattern{Seed: proto.Int32(seed)}) {
+				return
+			}
+		}
+		for _, seed := range []int32{2147483647, 1 << 30, 123456789} {
+			check(&pb.TrafficPattern{Seed: proto.Int32(seed), UnlockAll: proto.Bool(true)})
+		}
+		for a := int32(0); a <= 255; a++ {
+			for _, b := range []int32{0, 62, 63, 255} {
+				if !check(&pb.TrafficPattern{Padding: &pb.PaddingPattern{MaxMiddlePaddingLen: proto.Int32(a), MaxEndPaddingLen: proto.Int32(b)}}) ||
+					!check(&pb.TrafficPattern{Padding: &pb.PaddingPattern{MaxMiddlePaddingLen: proto.Int32(b), MaxEndPaddingLen: proto.Int32(a)}}) {
+					return
+				}
+			}
+		}
+		for m := 0; m <= 4; m++ {
+			for _, r := range []int32{0, 1, 15, 16, 62 * 16 / 16, 240} {
+				check(&pb.TrafficPattern{LowEntropy: &pb.LowEntropyPattern{Mode: pb.LowEntropyMode(m).Enum(), MaskRotation: pb.LowEntropyMaskRotation(r).Enum()}, Nonce: &pb.NoncePattern{Type: pb.NonceType_NONCE_TYPE_FIXED.Enum(), CustomHexStrings: []string{"fbef", "3e3f"}, MinLen: proto.Int32(int32(m)), MaxLen: proto.Int32(12)}})
+			}
+		}
+		u.DistinctN(int64(n) + 3 + 2048 + 30)
+		u.Sample("share links of profiles whose traffic pattern has seed 0..N, every padding maximum 0..255, every low-entropy mode; the pattern must survive mierus:// and mieru:// export/import")
+	}})
 	us = append(us, malformedUnits(tier, mk)...)
 	return us
 }
